@@ -49,6 +49,14 @@ for b, fns in (("ecb", ["beltECBStepE", "beltECBStepD"]), ("cbc", ["beltCBCStepE
     for lx in (16, 32):
         for ly in ((16, 32) if b == "bde" else (16, 17, 31, 33)):
             GROUPS.append(chunk(b, lx, ly, fns, tier="quick" if lx == 16 else "thorough"))
+BASH = ["src/crypto/bash/bash_hash.c", "src/crypto/bash/bash_prg.c", "src/crypto/bash/bash_f.c", "src/core/mem.c", "src/core/util.c", "src/core/blob.c",
+        "src/core/u64.c", "src/core/u32.c", "src/core/u16.c", "src/core/word.c"]
+GROUPS.append(G("bash.hash.search", "harness/C10/bash_chunks.c", "h_bash_hash", BASH, level="N", backend="native", search=60000,
+                fn=["bashHashStart", "bashHashStepH", "bashHashStepG", "bashHashStepV", "bashHash"],
+                note="native: all 16 levels, fragment lengths straddling the rate, Get-then-continue, relocation; NOT proof"))
+GROUPS.append(G("bash.prg.search", "harness/C10/bash_chunks.c", "h_bash_prg", BASH, level="N", backend="native", search=60000,
+                fn=["bashPrgStart", "bashPrgAbsorbStep", "bashPrgEncrStep", "bashPrgDecrStep", "bashPrgSqueezeStep"],
+                note="native: keyed automaton, (l, d) in {128,192,256} x {1,2}, commands in one call vs fragments, relocation, Decr o Encr; NOT proof"))
 TRUSTED = ["stubs/belt_uf.c: uninterpreted block function (both sides of every equality share it)"]
 ASSUMPTIONS = ["two fragments from a freshly started state; a third fragment would start from a state of the same shape (fill level + symbolic chaining values)"]
-NOT_COVERED = ["bash hash / prg, brng, botp bundles", "SDE and FMT bundles, KRP"]
+NOT_COVERED = ["brng, botp bundles", "SDE and FMT bundles, KRP", "bash bundles only natively"]
